@@ -64,7 +64,12 @@ MANIFEST = dict(
          "violation unless that entry is overwritten with True. With the `values` switch fixed, every returning path of a de-duplication helper hands "
          "back the same arrangement (one array, or the same number of things); the package's own unique(x, values=) is one index per distinct value / "
          "the values at those indices; a flagged path that returns the plain de-duplication before the scan is accepted only where all flags have "
-         "been established equal.",
+         "been established equal. Slot arithmetic of a counted container is decided on the relation slot counter = slots in use + k (k from the counter's "
+         "straight-line initialisation and whether the seed occupies slot 0): the new-run store must hit the first free slot (advance-then-store with "
+         "the counter naming the last slot, store-then-advance with the counter counting slots), the larger-flag store the last slot in use "
+         "(`keep[c]` resp. `keep[c - 1]`, `keep[-1]` of a list), and every use of the container after the scan must be the slice [0 : slots in use] "
+         "(`keep[:c + 1]` resp. `keep[:c]`); a store to another slot or another extent is a violation. A path that returns before any sorting after it "
+         "has established size(input) == 1 is decided on its term: the single index 0 (zeros(n), zeros(1), [0], arange(n), argsort(input)).",
     note="Not decided: completeness for all arrays (numpy.searchsorted/argsort/unique semantics trusted); NaN handling.",
     technique="static analysis: path-wise symbolic execution to normalised terms (match, vectorised unique), index-space typing over "
               "expression descriptors with CFG control dependence (scan loops)",
